@@ -160,8 +160,10 @@ def run(chk):
     return cases
 
 
-def corpus(chk, tier):
-    """Whole programs of the repository (examples/human-eval) through the machine; returns replay cases."""
+def corpus(chk, tier, sound_only=False):
+    """Whole programs of the repository (examples/human-eval) through the machine; returns replay cases:
+    the programs that finish inside the exact model, or (sound_only) those that leave it - for these the
+    machine's effects so far must be a prefix and the run must not go wrong (C02)."""
     import glob
     import json
     import random
@@ -194,7 +196,7 @@ def corpus(chk, tier):
         raise HarnessError("DocExamples(human-eval): " + res.violation)
     cases = []
     for n, c in enumerate(res.cases):
-        if c["soundOnly"]:
+        if bool(c["soundOnly"]) != sound_only:
             continue
         x = {k: v for k, v in c.items() if k not in ("srcs", "tag")}
         x.update(id="corpus-%d" % n, stage="run", src=[src[c["class"]]], layout="corpus", **{"class": "corpus/" + c["class"]})
@@ -203,6 +205,6 @@ def corpus(chk, tier):
         "selected": len(files), "numbers_outside_the_exact_model": nskip,
         "left_the_documented_domain (sqrt of a non-square, ...)": sum(1 for c in res.cases if c["soundOnly"]),
         "finished_within_%d_steps_and_replayed" % cap: len(cases)}
-    if not cases:
+    if not cases and not sound_only:
         raise HarnessError("no corpus program finished in the machine")
     return cases
